@@ -43,7 +43,7 @@ Proof.
 Qed.
 
 Section Sound.
-  Variable pknown : N -> bool.
+  Variable pknown : N -> list sval -> bool.
   Variable psem : N -> option (list sval) -> list sval -> option (list sval).
   Variable arrsem : bool -> list sval -> option sval.
   Variable unpacksem : nat -> bool -> sval -> option (list sval).
@@ -71,10 +71,8 @@ Section Sound.
     | Arr _ inner _ => tree_ok inner
     | NoInline inner => tree_ok inner
     | TrackCaller _ inner => tree_ok inner
-    | CustomInv _ _ sg nm => tree_ok nm /\ stored_ok sg nm
-    | Switch brs sg _ =>
-        (fix go (l : list (sig * node)) : Prop :=
-           match l with [] => True | a :: t => tree_ok (snd a) /\ stored_ok (fst a) (snd a) /\ go t end) brs
+    | CustomInv cs has sg nm => tree_ok nm /\ stored_ok sg nm /\ (has = true -> cs = Some sg)
+    | Switch _ _ _ => False     (* interpreted by the model, frame theorem not proved yet *)
     | _ => True end.
   Definition asm_ok : Prop := Forall tree_ok asm.
 
@@ -260,9 +258,9 @@ Section Sound.
         apply (sim_push [v]); auto.
       + (* Prim *) inversion Hv; subst; clear Hv. destruct e as [sk un]. destruct S as [S1 S2].
         destruct F as [F1 F2]. cbn [handle_ao fst snd] in *.
-        destruct (pknown id); cbn [negb]; [|exact I].
         unfold need. destruct (a <=? length (stk s)) eqn:En; cbn [negb].
-        * destruct (psem id (fillctx s) (firstn a (stk s))) as [outs|] eqn:Ep.
+        * destruct (pknown id (firstn a (stk s))); cbn [negb]; [|exact I].
+          destruct (psem id (fillctx s) (firstn a (stk s))) as [outs|] eqn:Ep.
           -- destruct (Nat.eqb_spec (length outs) o) as [Eo|]; [|exact I].
              apply post_ok; auto. split; senv; auto.
              apply sim_ao; auto.
@@ -574,6 +572,214 @@ Section Sound.
                 ** split; senv; [|lia]. unfold v3. destruct takes eqn:Et;
                      [pose proof (Htk eq_refl) | pose proof (Hnt eq_refl)]; vsimp; unfold n2; lia.
                 ** split; senv; auto.
-        * idtac.
-  Abort.
+        * (* Case *)
+          destruct Ht as (Tf & Of & _). inversion Hv; subst; clear Hv.
+          pose proof (framed_post fuel sg f (sk, un) init uinit s s
+                        (framed_of_P _ _ _ IH HA Tf Of) (conj S1 S2) (conj F1 F2) eq_refl) as Hp.
+          destruct (exec fuel f s); simpl in *; auto.
+        * (* Fill *)
+          destruct Ht as (Tf & Of & Tg & Og & _).
+          destruct (Nat.eqb_spec (so sg) 0) as [|Hso]; [exact I|].
+          assert (Hc : (0 <? so sg) = true) by (apply Nat.ltb_lt; lia).
+          rewrite Hc in Hv. cbn [orb] in Hv.
+          destruct (vnode (S d) f (sk, un)) as [e1|] eqn:E1; cbn [opt_bind] in Hv; [|discriminate].
+          pose proof (vnode_mono _ _ _ _ E1) as [L1 L2].
+          pose proof (vnode_mono _ _ _ _ Hv) as [L3 L4]. senv.
+          eapply (post_bind e1).
+          -- eapply (IH f (S d) (sk, un) e1); eauto.
+             ++ split; senv; vsimp; lia.
+             ++ split; auto.
+          -- split; senv; vsimp; lia.
+          -- intros s1 _ [A B] Hh. destruct e1 as [sk1 un1]. senv.
+             unfold need. destruct (so sg <=? length (stk s1)) eqn:En; cbn [negb].
+             ++ apply Nat.leb_le in En.
+                set (s2 := {| stk := skipn (so sg) (stk s1); und := und s1;
+                              fills := firstn (so sg) (stk s1) :: fills s1; fbs := fbs s1; depth := depth s1 |}).
+                assert (Hp : post e' init uinit s2 (exec fuel g s2)).
+                { eapply (IH g (S d) (handle_ao (so sg) 0 (sk1, un1)) e'); eauto.
+                  - split; auto.
+                  - split; senv.
+                    + change (vao (so sg) 0 sk1) with (vpush 0 (vpop (so sg) sk1)).
+                      apply (sim_push' 0 []); auto. apply sim_pop; auto. vsimp. lia.
+                    + auto. }
+                destruct (exec fuel g s2) as [s3|c s3| |]; simpl in Hp |- *; auto.
+                ** destruct Hp as [Sx Hx]. split; auto.
+                   unfold hid in *. cbn [fills fbs depth] in *. inversion Hx. inversion Hh. subst.
+                   rewrite H0, H1, H2. cbn [tl]. congruence.
+                ** destruct Hp as [Sx Hx]. split; auto.
+                   unfold hid in *. cbn [fills fbs depth] in *. inversion Hx. inversion Hh. subst.
+                   rewrite H0, H1, H2. cbn [tl]. congruence.
+             ++ apply post_err; auto. split; senv.
+                ** eapply simE_keep; eauto. vsimp. lia.
+                ** eapply simE_keep; eauto.
+        * (* DipN *)
+          destruct Ht as (Tf & Of & _). inversion Hv; subst; clear Hv.
+          specialize (HnoU eq_refl). inversion HnoU as [|? ? [U1 U2] _]; subst; cbn [fst] in *.
+          unfold handle_sig in *. cbn [fst snd sa so sua suo] in *. rewrite U1, U2 in *.
+          rewrite (vao00 _ _ _ S2) in *.
+          unfold need. destruct (n <=? length (stk s)) eqn:En; cbn [negb].
+          -- apply Nat.leb_le in En.
+             eapply (post_bind (vao (sa sg) (so sg) (vpop n sk), un)).
+             ++ eapply frame_step; eauto.
+                ** senv. apply sim_pop; auto. vsimp. lia.
+                ** vsimp. lia.
+             ++ split; senv; vsimp; lia.
+             ++ intros s1 _ [A B] Hh. senv. apply post_ok; auto. split; senv; auto.
+                eapply (sim_deepen (vpush n (vao (sa sg) (so sg) (vpop n sk)))).
+                ** apply sim_push'; auto. rewrite firstn_length; lia.
+                ** vsimp. lia.
+                ** vsimp. lia.
+                ** auto.
+          -- apply post_err; auto. split; senv.
+             ++ eapply simE_keep; eauto. vsimp. lia.
+             ++ eapply simE_keep; eauto.
+      + (* Call *)
+        inversion Hv; subst; clear Hv. cbn [tree_ok] in Ht.
+        destruct (nth_error asm f) as [body|] eqn:Eb; [|exact I].
+        assert (Tb : tree_ok body).
+        { unfold asm_ok in HA. rewrite Forall_forall in HA. apply HA. eapply nth_error_In; eauto. }
+        set (s1 := {| stk := stk s; und := und s; fills := fills s;
+                      fbs := length (fills s) :: fbs s; depth := Datatypes.S (depth s) |}).
+        pose proof (framed_post fuel s0 body e init uinit s1 s1
+                      (framed_of_P _ _ _ IH HA Tb Ht) S F eq_refl) as Hp.
+        destruct (exec fuel body s1) as [s2|c s2| |]; simpl in Hp |- *; auto.
+        * destruct Hp as [[A B] Hh].
+          assert (Hh' : hid {| stk := stk s2; und := und s2; fills := fills s2;
+                               fbs := tl (fbs s2); depth := Init.Nat.pred (depth s2) |} = hid s).
+          { unfold hid in *. cbn [fills fbs depth] in *. inversion Hh as [[H1 H2 H3]].
+            rewrite H1, H2, H3. reflexivity. }
+          match goal with |- post _ _ _ _ (if ?c then _ else _) => destruct c end.
+          -- apply post_ok; auto. split; auto.
+          -- apply post_err; auto. split; cbn [stk und]; apply sim_simE; auto.
+        * destruct Hp as [[A B] Hh]. split; [split; auto|].
+          unfold hid in *. cbn [fills fbs depth] in *. inversion Hh as [[H1 H2 H3]].
+          rewrite H1, H2, H3. reflexivity.
+      + exact I.
+      + exact I.
+      + exact I.
+      + (* Arr *)
+        destruct (vnode (Datatypes.S d) n e) as [e1|] eqn:E1; cbn [opt_bind] in Hv; [|discriminate].
+        inversion Hv; subst; clear Hv. cbn [tree_ok] in Ht.
+        pose proof (vnode_mono _ _ _ _ E1) as [L1 L2]. destruct e1 as [sk1 un1]. destruct F as [F1 F2]. senv. vsimp.
+        set (s0 := {| stk := stk s; und := und s; fills := fills s;
+                      fbs := length (fills s) :: fbs s; depth := depth s |}).
+        assert (Hp : post (sk1, un1) init uinit s0 (exec fuel n s0)).
+        { eapply IH; eauto. split; senv; lia. }
+        destruct (exec fuel n s0) as [s1|c s1| |]; simpl in Hp |- *; auto.
+        * destruct Hp as [[A B] Hh]. senv.
+          assert (Hh' : forall l u, hid {| stk := l; und := u; fills := fills s1;
+                               fbs := tl (fbs s1); depth := depth s1 |} = hid s).
+          { intros. unfold hid in *. cbn [fills fbs depth] in *. inversion Hh as [[H1 H2 H3]].
+            rewrite H1, H2, H3. reflexivity. }
+          unfold need. cbn [stk].
+          destruct (len <=? length (stk s1)) eqn:En; cbn [negb].
+          -- destruct (arrsem boxed (firstn len (stk s1))) as [v|].
+             ++ apply post_ok; [|apply Hh']. split; senv; auto.
+                apply (sim_push [v]). apply sim_pop; auto; try (apply Nat.leb_le; auto; fail); try (vsimp; lia).
+             ++ apply post_err; [|apply Hh']. split; senv.
+                ** eapply simE_weaken; [apply simE_pop; eauto; try (apply Nat.leb_le; auto; fail); try (vsimp; lia)|vsimp; lia].
+                ** apply sim_simE; auto.
+          -- apply post_err; [|apply Hh']. split; senv.
+             ++ eapply simE_keep; eauto. vsimp. lia.
+             ++ apply sim_simE; auto.
+        * destruct Hp as [[A B] Hh]. split.
+          -- split; senv; [eapply simE_weaken; eauto; vsimp; lia | auto].
+          -- unfold hid in *. cbn [fills fbs depth] in *. inversion Hh as [[H1 H2 H3]].
+             rewrite H1, H2, H3. reflexivity.
+      + (* Unpack *)
+        inversion Hv; subst; clear Hv. destruct e as [sk un]. destruct S as [S1 S2]. destruct F as [F1 F2]. senv.
+        destruct (stk s) as [|x rest] eqn:Es.
+        * apply post_err; auto. split; senv; rewrite ?Es.
+          -- eapply simE_keep; eauto. vsimp. lia.
+          -- apply sim_simE; auto.
+        * destruct (unpacksem count unbox x) as [vs|].
+          -- destruct (Nat.eqb_spec (length vs) count); [|exact I].
+             apply post_ok; auto. split; senv; auto.
+             change rest with (skipn 1 (x :: rest)). apply sim_ao; auto.
+          -- apply post_err; auto. split; senv.
+             ++ change rest with (skipn 1 (x :: rest)). apply simE_ao_pop; auto.
+             ++ apply sim_simE; auto.
+      + (* Switch *) destruct Ht.
+      + (* PushUnder *)
+        inversion Hv; subst; clear Hv. destruct e as [sk un]. destruct S as [S1 S2]. destruct F as [F1 F2]. senv.
+        unfold need. destruct (n <=? length (stk s)) eqn:En; cbn [negb].
+        * apply Nat.leb_le in En. apply post_ok; auto. split; senv.
+          -- apply sim_pop; auto.
+          -- apply sim_push'; auto. rewrite rev_length, firstn_length. lia.
+        * apply post_err; auto. split; senv.
+          -- eapply simE_keep; eauto; try (vsimp; lia).
+          -- eapply simE_keep; eauto; try (vsimp; lia).
+      + (* CopyToUnder *)
+        inversion Hv; subst; clear Hv. destruct e as [sk un]. destruct S as [S1 S2]. destruct F as [F1 F2]. senv.
+        unfold need. destruct (n <=? length (stk s)) eqn:En; cbn [negb].
+        * apply Nat.leb_le in En. apply post_ok; auto. split; senv.
+          -- apply sim_widen; auto; try (vsimp; lia).
+          -- apply sim_push'; auto. rewrite rev_length, firstn_length. lia.
+        * apply post_err; auto. split; senv.
+          -- eapply simE_keep; eauto; try (vsimp; lia).
+          -- eapply simE_keep; eauto; try (vsimp; lia).
+      + (* PopUnder *)
+        inversion Hv; subst; clear Hv. destruct e as [sk un]. destruct S as [S1 S2]. destruct F as [F1 F2]. senv.
+        destruct (length (und s) <? n) eqn:En.
+        * apply post_err; auto. split; senv.
+          -- eapply simE_keep; eauto; try (vsimp; lia).
+          -- eapply simE_keep; eauto; try (vsimp; lia).
+        * apply Nat.ltb_ge in En. apply post_ok; auto. split; senv.
+          -- apply sim_push'; auto. rewrite rev_length, firstn_length. lia.
+          -- apply sim_pop; auto.
+      + (* NoInline *) cbn [tree_ok] in Ht. eapply IH; eauto.
+      + (* TrackCaller *) cbn [tree_ok] in Ht.
+        pose proof (vnode_mono _ _ _ _ Hv) as [L1 L2].
+        unfold need. destruct (sa s0 <=? length (stk s)) eqn:En; cbn [negb].
+        * eapply IH; eauto.
+        * apply post_err; auto. destruct S as [S1 S2]. split; eapply simE_keep; eauto.
+      + (* CustomInv *)
+        cbn [tree_ok] in Ht. destruct Ht as (Tn & On & Hcs).
+        destruct has_normal.
+        * rewrite (Hcs eq_refl) in Hv. inversion Hv; subst; clear Hv.
+          set (s1 := {| stk := stk s; und := und s; fills := fills s; fbs := fbs s; depth := Datatypes.S (depth s) |}).
+          pose proof (framed_post fuel nsig n e init uinit s1 s1
+                        (framed_of_P _ _ _ IH HA Tn On) S F eq_refl) as Hp.
+          destruct (exec fuel n s1) as [s2|c s2| |]; simpl in Hp |- *; auto.
+          -- destruct Hp as [[A B] Hh].
+             assert (Hh' : hid {| stk := stk s2; und := und s2; fills := fills s2;
+                                  fbs := fbs s2; depth := Init.Nat.pred (depth s2) |} = hid s).
+             { unfold hid in *. cbn [fills fbs depth] in *. inversion Hh as [[H1 H2 H3]].
+               rewrite H1, H2, H3. reflexivity. }
+             match goal with |- post _ _ _ _ (if ?c then _ else _) => destruct c end.
+             ++ apply post_ok; auto. split; auto.
+             ++ apply post_err; auto. split; cbn [stk und]; apply sim_simE; auto.
+          -- destruct Hp as [[A B] Hh]. split; [split; auto|].
+             unfold hid in *. cbn [fills fbs depth] in *. inversion Hh as [[H1 H2 H3]].
+             rewrite H1, H2, H3. reflexivity.
+        * destruct s0 as [cs|]; [|discriminate]. inversion Hv; subst; clear Hv.
+          apply post_err; auto. destruct S as [S1 S2]. destruct e as [sk un].
+          split; senv; eapply simE_keep; eauto; vsimp; lia.
+      + (* Label *)
+        inversion Hv; subst; clear Hv. destruct e as [sk un]. destruct S as [S1 S2]. destruct F as [F1 F2]. senv.
+        unfold need. destruct (1 <=? length (stk s)) eqn:En.
+        * apply Nat.leb_le in En. apply post_ok; auto. split; senv; auto.
+          destruct (stk s) as [|x rest] eqn:Es; [simpl in En; lia|].
+          change (x :: rest) with ([x] ++ skipn 1 (x :: rest)). apply sim_ao; auto.
+        * apply post_err; auto. split; senv; [eapply simE_keep; eauto; vsimp; lia | apply sim_simE; auto].
+      + (* RemoveLabel *)
+        inversion Hv; subst; clear Hv. destruct e as [sk un]. destruct S as [S1 S2]. destruct F as [F1 F2]. senv.
+        unfold need. destruct (1 <=? length (stk s)) eqn:En.
+        * apply Nat.leb_le in En. apply post_ok; auto. split; senv; auto.
+          destruct (stk s) as [|x rest] eqn:Es; [simpl in En; lia|].
+          change (x :: rest) with ([x] ++ skipn 1 (x :: rest)). apply sim_ao; auto.
+        * apply post_err; auto. split; senv; [eapply simE_keep; eauto; vsimp; lia | apply sim_simE; auto].
+      + (* Format *)
+        inversion Hv; subst; clear Hv. destruct e as [sk un]. destruct S as [S1 S2]. destruct F as [F1 F2]. senv.
+        unfold need. destruct (parts - 1 <=? length (stk s)) eqn:En; cbn [negb].
+        * apply post_ok; auto. split; senv; auto.
+          change (fmtsem (firstn (parts - 1) (stk s)) :: skipn (parts - 1) (stk s))
+            with ([fmtsem (firstn (parts - 1) (stk s))] ++ skipn (parts - 1) (stk s)).
+          apply sim_ao; auto.
+        * apply Nat.leb_gt in En. exfalso.
+          pose proof (sim_enough (parts - 1) sk init (stk s) S1). vsimp. lia.
+      + exact I.
+      + exact I.
+      + (* SetOutputComment *) inversion Hv; subst. apply post_ok; auto.
+  Qed.
 End Sound.
